@@ -632,6 +632,11 @@ func c13StoreSources(v ssa.Value, gls *ssa.Function, depth int) ([]c13Src, bool)
 	if !ok {
 		return nil, false
 	}
+	idx := 0
+	if ex, isE := r.(*ssa.Extract); isE {
+		// one result of a helper returning (store, error)
+		r, idx = ex.Tuple, ex.Index
+	}
 	call, ok := r.(*ssa.Call)
 	if !ok {
 		return nil, false
@@ -646,13 +651,24 @@ func c13StoreSources(v ssa.Value, gls *ssa.Function, depth int) ([]c13Src, bool)
 	if depth <= 0 || callee.Blocks == nil || callee.Pkg == nil || !eng.IsRepoPkg(callee.Pkg.Pkg.Path()) {
 		return nil, false
 	}
+	errIdx := c13ErrIdx(callee)
+	if errIdx == idx {
+		return nil, false
+	}
 	var out []c13Src
 	for _, b := range callee.Blocks {
-		ret, isRet := b.Instrs[len(b.Instrs)-1].(*ssa.Return)
-		if !isRet || len(ret.Results) != 1 {
+		if b == callee.Recover || len(b.Instrs) == 0 {
 			continue
 		}
-		ss, ok := c13StoreSources(c13Returned(ret, 0), gls, depth-1)
+		ret, isRet := b.Instrs[len(b.Instrs)-1].(*ssa.Return)
+		if !isRet || idx >= len(ret.Results) {
+			continue
+		}
+		rv := c13Returned(ret, idx)
+		if len(ret.Results) > 1 && eng.IsNilConst(rv) && errIdx >= 0 && c13FreshError(c13Returned(ret, errIdx)) {
+			continue // failure return (nil, error): no store is handed out
+		}
+		ss, ok := c13StoreSources(rv, gls, depth-1)
 		if !ok {
 			return nil, false
 		}
@@ -1053,7 +1069,7 @@ func c13R2(c *eng.Ctx) {
 					good, why = false, "GetShardID's count is not the receiver's synced shardCount"
 				}
 				// count != 0 (a zero modulus panics; before the first sync the count is unknown)
-				guarded := eng.GuardedBy(s.Call, func(r eng.Rel) bool {
+				guarded := eng.HoldsAt(s.Call, func(r eng.Rel) bool {
 					x, y := r.X, r.Y
 					op := r.Op
 					if eng.FieldLoadOf(y, tn, "shardCount") {
@@ -1103,7 +1119,7 @@ func c13R2(c *eng.Ctx) {
 							cc, idx := eng.CallResultOf(v)
 							return cc == via && idx == c13ErrIdx(via.Call.StaticCallee())
 						}
-						if !eng.GuardedByNil(ci, errOf, true) {
+						if !eng.HoldsAtNil(ci, errOf, true) {
 							good, why = false, "the table is consulted although "+via.Call.StaticCallee().Name()+" may have failed (id -1)"
 						}
 					}
@@ -1256,28 +1272,282 @@ type c13Guard struct {
 	Srcs   []c13Src
 }
 
-// c13LeaderGuards returns the leader guards dominating ins.
+// c13LeaderGuards returns the leader guards under which ins executes in its own function: the
+// facts implied by its dominating branches (resolved through named flags, short-circuit values
+// and boolean predicate helpers, eng.FactsAt) that state `IsLeader(id) == true`, or that the
+// error result of a helper is nil which returns a nil error only under such a guard
+// (`id, err := r.leadingShard(name); if err != nil { return }`).
 func c13LeaderGuards(ins ssa.Instruction, depth int) []c13Guard {
+	return c13LeaderGuardsH(ins, depth, 2)
+}
+
+func c13LeaderGuardsH(ins ssa.Instruction, depth, hdepth int) []c13Guard {
 	var out []c13Guard
-	for _, g := range eng.GuardsOf(ins) {
-		r := g.Rel()
-		holds := (r.Op == token.EQL && eng.IsBoolConst(r.Y, true)) || (r.Op == token.NEQ && eng.IsBoolConst(r.Y, false))
-		if !holds {
-			continue
+	if ins == nil || ins.Block() == nil {
+		return nil
+	}
+	for _, f := range eng.FactsAt(ins, eng.LiftDepth) {
+		gs := c13GuardsOfRel(f.Rel, depth, hdepth)
+		// facts found inside a predicate helper speak about the helper's parameters
+		for e := f.Env; e != nil && len(gs) > 0; e = e.Parent {
+			gs = c13SubstGuards(e.Call, e.Callee, gs)
 		}
+		out = append(out, gs...)
+	}
+	return out
+}
+
+// c13GuardsOfRel classifies one relation (over the values of the function it was found in).
+func c13GuardsOfRel(r eng.Rel, depth, hdepth int) []c13Guard {
+	if r.Op != token.EQL && r.Op != token.NEQ {
+		return nil
+	}
+	// IsLeader(id) == true, or `ok == true` with ok the boolean result of a helper that answers
+	// true only for the leader
+	if (r.Op == token.EQL && eng.IsBoolConst(r.Y, true)) || (r.Op == token.NEQ && eng.IsBoolConst(r.Y, false)) {
 		v, ok := c13Alias(r.X)
 		if !ok {
+			return nil
+		}
+		if g, isL := c13LeaderCallGuard(v, depth); isL {
+			return []c13Guard{g}
+		}
+		if ex, isE := v.(*ssa.Extract); isE && hdepth > 0 {
+			if call, isC := ex.Tuple.(*ssa.Call); isC {
+				return c13HelperGuards(call, ex.Index, false, depth, hdepth)
+			}
+		}
+		return nil
+	}
+	// err == nil, err the error result of a helper whose success returns are leader-guarded
+	if r.Op != token.EQL || hdepth <= 0 {
+		return nil
+	}
+	x := r.X
+	if eng.IsNilConst(x) {
+		x = r.Y
+	} else if !eng.IsNilConst(r.Y) {
+		return nil
+	}
+	v, ok := c13Alias(x)
+	if !ok {
+		return nil
+	}
+	ex, ok := v.(*ssa.Extract)
+	if !ok {
+		return nil
+	}
+	call, ok := ex.Tuple.(*ssa.Call)
+	if !ok {
+		return nil
+	}
+	return c13HelperGuards(call, ex.Index, true, depth, hdepth)
+}
+
+// c13LeaderCallGuard: v is the result of IsLeader(id) with id computed by GetShardID.
+func c13LeaderCallGuard(v ssa.Value, depth int) (c13Guard, bool) {
+	call, ok := v.(*ssa.Call)
+	if !ok || !eng.IsCall(call, c13IsLeader) {
+		return c13Guard{}, false
+	}
+	srcs, ok := c13ShardSources(eng.Args(call)[0], depth)
+	if !ok || len(srcs) == 0 {
+		return c13Guard{}, false
+	}
+	return c13Guard{call, srcs}, true
+}
+
+// c13HelperGuards: the leader guards implied by result idx of a call of a repository helper
+// signalling success — a nil error (isErr) or a true boolean: every return of the helper that
+// can signal success executes under the guard (or returns the IsLeader answer itself). The
+// guards are stated in the context of the call.
+func c13HelperGuards(call *ssa.Call, idx int, isErr bool, depth, hdepth int) []c13Guard {
+	h := call.Call.StaticCallee()
+	if h == nil || h.Blocks == nil || h.Pkg == nil || !eng.IsRepoPkg(h.Pkg.Pkg.Path()) || hdepth <= 0 {
+		return nil
+	}
+	if isErr && c13ErrIdx(h) != idx {
+		return nil
+	}
+	var common []c13Guard
+	n := 0
+	for _, b := range h.Blocks {
+		if b == h.Recover || len(b.Instrs) == 0 {
 			continue
 		}
-		call, ok := v.(*ssa.Call)
-		if !ok || !eng.IsCall(call, c13IsLeader) {
+		ret, isRet := b.Instrs[len(b.Instrs)-1].(*ssa.Return)
+		if !isRet {
 			continue
 		}
-		srcs, ok := c13ShardSources(eng.Args(call)[0], depth)
-		if !ok || len(srcs) == 0 {
+		rv := c13Returned(ret, idx)
+		if rv == nil || (isErr && c13FreshError(rv)) || (!isErr && eng.IsBoolConst(rv, false)) {
+			continue // a failure return
+		}
+		gs := c13LeaderGuardsH(ret, depth, hdepth-1)
+		if !isErr {
+			if a, ok := c13Alias(rv); ok {
+				if g, isL := c13LeaderCallGuard(a, depth); isL {
+					gs = append(gs, g)
+				}
+			}
+		}
+		if n == 0 {
+			common = gs
+		} else {
+			var keep []c13Guard
+			for _, g := range common {
+				for _, g2 := range gs {
+					if g.Leader == g2.Leader {
+						keep = append(keep, g)
+						break
+					}
+				}
+			}
+			common = keep
+		}
+		n++
+	}
+	if n == 0 {
+		return nil
+	}
+	return c13SubstGuards(call, h, common)
+}
+
+// c13SubstSrcs re-expresses shard sources stated over the parameters of callee in the context of
+// the call site.
+func c13SubstSrcs(call ssa.CallInstruction, callee *ssa.Function, srcs []c13Src) []c13Src {
+	out := make([]c13Src, len(srcs))
+	for i, s := range srcs {
+		s.Name, s.Count = c13SubstCI(call, callee, s.Name), c13SubstCI(call, callee, s.Count)
+		out[i] = s
+	}
+	return out
+}
+
+func c13SubstGuards(call ssa.CallInstruction, callee *ssa.Function, gs []c13Guard) []c13Guard {
+	out := make([]c13Guard, len(gs))
+	for i, g := range gs {
+		out[i] = c13Guard{g.Leader, c13SubstSrcs(call, callee, g.Srcs)}
+	}
+	return out
+}
+
+// c13SubstCI is c13Subst for any call instruction that calls callee statically.
+func c13SubstCI(call ssa.CallInstruction, callee *ssa.Function, r c13Ref) c13Ref {
+	if call == nil || call.Common().IsInvoke() {
+		return r
+	}
+	if p, ok := r.Root.(*ssa.Parameter); ok && p.Parent() == callee {
+		if k := c13ParamIndex(p); k >= 0 && k < len(call.Common().Args) {
+			b := c13RefOf(call.Common().Args[k])
+			return c13Ref{b.Root, c13Join(b.Path, r.Path)}
+		}
+	}
+	return r
+}
+
+// c13Level is one program point under which an instruction executes: the instruction itself,
+// the creation site of the function literal holding it, or the call site of the extracted
+// helper holding it (bind: that call, which binds the parameters of callee).
+type c13Level struct {
+	at     ssa.Instruction
+	bind   ssa.CallInstruction
+	callee *ssa.Function
+}
+
+// c13Chains enumerates, for an instruction of the region of entry, the chains of program
+// points leading from it out to entry: element 0 is ins; element k+1 is the creation site of the
+// closure, or a call site of the helper with known callers (eng.GuardSites), that holds
+// element k. A guard at any level guards ins.
+func c13Chains(ins ssa.Instruction, entry *ssa.Function, depth int) [][]c13Level {
+	fn := ins.Parent()
+	self := c13Level{at: ins}
+	if fn == entry {
+		return [][]c13Level{{self}}
+	}
+	var out [][]c13Level
+	if fn.Parent() != nil {
+		eng.Instrs(fn.Parent(), func(i ssa.Instruction) {
+			if mc, ok := i.(*ssa.MakeClosure); ok && mc.Fn == ssa.Value(fn) {
+				for _, up := range c13Chains(mc, entry, depth) {
+					out = append(out, append([]c13Level{self}, up...))
+				}
+			}
+		})
+		if len(out) > 0 {
+			return out
+		}
+	}
+	if depth > 0 {
+		for _, s := range eng.Current.GuardSites(fn) {
+			for _, up := range c13Chains(s, entry, depth-1) {
+				head := up[0]
+				if s.Common().StaticCallee() == fn {
+					head.bind, head.callee = s, fn
+				}
+				chain := append([]c13Level{self, head}, up[1:]...)
+				out = append(out, chain)
+			}
+		}
+		if len(out) > 0 {
+			return out
+		}
+	}
+	if fn.Parent() != nil {
+		return nil // a function literal whose creation cannot be found
+	}
+	return [][]c13Level{{self}}
+}
+
+// c13LiftRef re-expresses a ref of the function of chain[from] in the context of the outermost
+// level of the chain.
+func c13LiftRef(chain []c13Level, from int, r c13Ref) c13Ref {
+	for k := from + 1; k < len(chain); k++ {
+		if chain[k].bind != nil {
+			r = c13SubstCI(chain[k].bind, chain[k].callee, r)
+		}
+	}
+	return r
+}
+
+// c13LiftValue resolves a value of the function of chain[0] that is a parameter of an extracted
+// helper to the argument bound to it further out in the chain.
+func c13LiftValue(chain []c13Level, v ssa.Value) ssa.Value {
+	for k := 1; k < len(chain); k++ {
+		if chain[k].bind == nil {
 			continue
 		}
-		out = append(out, c13Guard{call, srcs})
+		r, isAlias := c13Alias(v)
+		if !isAlias {
+			return v
+		}
+		p, isP := r.(*ssa.Parameter)
+		if !isP || p.Parent() != chain[k].callee {
+			continue
+		}
+		i := c13ParamIndex(p)
+		args := chain[k].bind.Common().Args
+		if i < 0 || i >= len(args) {
+			return v
+		}
+		v = args[i]
+	}
+	return v
+}
+
+// c13ChainGuards collects the leader guards of every level of a chain, stated in the context of
+// the outermost level.
+func c13ChainGuards(chain []c13Level, depth int) []c13Guard {
+	var out []c13Guard
+	for k, lv := range chain {
+		for _, g := range c13LeaderGuards(lv.at, depth) {
+			srcs := make([]c13Src, len(g.Srcs))
+			for i, s := range g.Srcs {
+				s.Name, s.Count = c13LiftRef(chain, k, s.Name), c13LiftRef(chain, k, s.Count)
+				srcs[i] = s
+			}
+			out = append(out, c13Guard{g.Leader, srcs})
+		}
 	}
 	return out
 }
@@ -1348,6 +1618,164 @@ func c13CallSiteAgreement(c *eng.Ctx, cache map[string]*c13Agreement, entry *ssa
 	return a.ok
 }
 
+// c13NamesLeader: ev is a non-nil error built from GetLeaders().
+func c13NamesLeader(c *eng.Ctx, ev ssa.Value) bool {
+	if ev == nil || eng.IsNilConst(ev) {
+		return false
+	}
+	return c.Slicer().WithArgs().DerivesFrom(ev, func(v ssa.Value) bool {
+		cc, ok := v.(*ssa.Call)
+		return ok && eng.IsCall(cc, c13GetLeaders)
+	})
+}
+
+// c13NonLeaderAnswered decides, for one IsLeader call of the region of a serving entry point,
+// that every way of leaving the entry point after IsLeader answered false carries an error
+// naming the leader. A return of the function holding the call counts as "leader" only when it
+// executes under IsLeader == true (a fact of its block: plain branch, named flag, switch). When
+// the call sits in an extracted helper the helper signals the non-leader case to its callers
+// through its own results — a non-nil error naming the leader, or a false boolean — and each
+// caller must answer with the error on every path on which that signal is not excluded.
+func c13NonLeaderAnswered(c *eng.Ctx, leader *ssa.Call, entry *ssa.Function, depth int) (bad bool, why string) {
+	fn := leader.Parent()
+	isLeaderTrue := func(ret ssa.Instruction) bool {
+		for _, r := range eng.RelsAt(ret) {
+			if v, ok := c13Alias(r.X); ok && v == ssa.Value(leader) &&
+				((r.Op == token.EQL && eng.IsBoolConst(r.Y, true)) || (r.Op == token.NEQ && eng.IsBoolConst(r.Y, false))) {
+				return true
+			}
+		}
+		return false
+	}
+	// returns that can be reached after IsLeader answered false
+	var rets []*ssa.Return
+	for _, b := range fn.Blocks {
+		if b == fn.Recover || len(b.Instrs) == 0 {
+			continue
+		}
+		ret, ok := b.Instrs[len(b.Instrs)-1].(*ssa.Return)
+		if !ok || isLeaderTrue(ret) {
+			continue
+		}
+		if eng.ReachAfter(leader, eng.PathQuery{Target: func(i ssa.Instruction) bool { return i == ssa.Instruction(ret) }}) != nil {
+			rets = append(rets, ret)
+		}
+	}
+	if fn == entry || fn.Parent() != nil {
+		top := fn
+		if fn.Parent() != nil {
+			// inside a function literal: only the literal's own returns are seen; not classified
+			return true, "IsLeader is tested inside a function literal"
+		}
+		errIdx := c13ErrIdx(top)
+		for _, ret := range rets {
+			if !c13NamesLeader(c, c13Returned(ret, errIdx)) {
+				return true, ""
+			}
+		}
+		return false, ""
+	}
+	// an extracted helper: how does it signal "not leader"?
+	sites := eng.Current.LiftSites(fn)
+	if depth <= 0 || len(sites) == 0 {
+		return true, "IsLeader is tested in a function whose callers are not all known"
+	}
+	hErr := c13ErrIdx(fn)
+	res := fn.Signature.Results()
+	boolIdx := -1
+	if hErr < 0 {
+		for i := 0; i < res.Len(); i++ {
+			if b, ok := res.At(i).Type().Underlying().(*types.Basic); ok && b.Info()&types.IsBoolean != 0 {
+				boolIdx = i
+			}
+		}
+		if boolIdx < 0 {
+			return true, "the helper testing IsLeader returns neither an error nor a boolean"
+		}
+	}
+	for _, ret := range rets {
+		if hErr >= 0 {
+			if !c13NamesLeader(c, c13Returned(ret, hErr)) {
+				return true, "the helper testing IsLeader returns without an error naming the leader on its non-leader path"
+			}
+			continue
+		}
+		rv := c13Returned(ret, boolIdx)
+		if a, ok := c13Alias(rv); !eng.IsBoolConst(rv, false) && !(ok && a == ssa.Value(leader)) {
+			return true, "the helper testing IsLeader answers true on a path where IsLeader was false"
+		}
+	}
+	// at every call site: every way out on which the signal is not excluded answers with the error
+	inRegion := map[*ssa.Function]bool{}
+	for _, f := range c.W.Region(entry) {
+		inRegion[f] = true
+	}
+	nSites := 0
+	for _, s := range sites {
+		if !inRegion[s.Parent()] {
+			continue // a call from another entry point: decided there
+		}
+		nSites++
+		call, isCall := s.(*ssa.Call)
+		if !isCall {
+			return true, "the helper testing IsLeader is started with go/defer"
+		}
+		caller := call.Parent()
+		if caller != entry {
+			return true, "the helper testing IsLeader is called from another helper or a function literal"
+		}
+		isSig := func(v ssa.Value) bool {
+			a, ok := c13Alias(v)
+			if !ok {
+				return false
+			}
+			if hErr >= 0 {
+				e, isE := a.(*ssa.Extract)
+				return (isE && e.Tuple == ssa.Value(call) && e.Index == hErr) || (res.Len() == 1 && a == ssa.Value(call))
+			}
+			e, isE := a.(*ssa.Extract)
+			return (isE && e.Tuple == ssa.Value(call) && e.Index == boolIdx) || (res.Len() == 1 && a == ssa.Value(call))
+		}
+		var cut func(from *ssa.BasicBlock, succ int) bool
+		if hErr >= 0 {
+			cut = c13CutNilEdges(isSig, true) // err == nil edges: the leader case
+		} else {
+			cut = func(from *ssa.BasicBlock, succ int) bool {
+				for _, r := range eng.EdgeRels(from, succ) {
+					if isSig(r.X) && ((r.Op == token.EQL && eng.IsBoolConst(r.Y, true)) || (r.Op == token.NEQ && eng.IsBoolConst(r.Y, false))) {
+						return true
+					}
+				}
+				return false
+			}
+		}
+		errIdx := c13ErrIdx(caller)
+		x := eng.ReachAfter(call, eng.PathQuery{BlockEdge: cut, Target: func(i ssa.Instruction) bool {
+			ret, ok := i.(*ssa.Return)
+			if !ok {
+				return false
+			}
+			// a return in a block that is only reached with the signal excluded is the leader case
+			for _, r := range eng.RelsAt(ret) {
+				if hErr >= 0 && r.Op == token.EQL && ((isSig(r.X) && eng.IsNilConst(r.Y)) || (isSig(r.Y) && eng.IsNilConst(r.X))) {
+					return false
+				}
+				if hErr < 0 && isSig(r.X) && ((r.Op == token.EQL && eng.IsBoolConst(r.Y, true)) || (r.Op == token.NEQ && eng.IsBoolConst(r.Y, false))) {
+					return false
+				}
+			}
+			return !c13NamesLeader(c, c13Returned(ret, errIdx))
+		}})
+		if x != nil {
+			return true, "a caller of the helper testing IsLeader can return without the error although the helper signalled `not leader`"
+		}
+	}
+	if nSites == 0 {
+		return true, "the helper testing IsLeader is not called from the entry point"
+	}
+	return false, ""
+}
+
 func c13R3(c *eng.Ctx) {
 	depth := c.Depth
 	storeIface := c.W.Interface(pkgRLStoreIf, "LimitStore")
@@ -1376,8 +1804,8 @@ func c13R3(c *eng.Ctx) {
 			gp, gIsP := guard.Root.(*ssa.Parameter)
 			kp, kIsP := key.Root.(*ssa.Parameter)
 			if gIsP && kIsP && gp.Parent() == entry && kp.Parent() == entry && guard.Path == "" && key.Path != "" {
-				// no write of that field inside the entry point itself
-				for _, f := range eng.WithClosures(entry) {
+				// no write of that field inside the entry point itself (its closures and extracted helpers)
+				for _, f := range c.W.Region(entry) {
 					bad := false
 					eng.Instrs(f, func(ins ssa.Instruction) {
 						if st, ok := ins.(*ssa.Store); ok {
@@ -1398,7 +1826,10 @@ func c13R3(c *eng.Ctx) {
 
 		ord := map[string]int{}
 		nMut := 0
-		for _, fn := range eng.WithClosures(entry) {
+		// the entry point together with its closures and the helpers (with known callers) its body
+		// may have been spread over
+		region := c.W.Region(entry)
+		for _, fn := range region {
 			for _, ci := range eng.Calls(fn) {
 				if !isStoreMut(ci) && !isFCMut(ci) {
 					continue
@@ -1426,20 +1857,26 @@ func c13R3(c *eng.Ctx) {
 					continue
 				}
 
-				sites := c13Sites(ci)
-				ok := len(sites) > 0
+				chains := c13Chains(ci, entry, eng.LiftDepth)
+				ok := len(chains) > 0
 				why := "the mutation must be control-dependent on IsLeader(GetShardID(u, n)) == true with u the upstream it is keyed by; otherwise a server that does not lead u's shard changes u's quota/acquire state"
-				var guardSrcs []c13Src
-				for _, site := range sites {
+				sok, swhy := len(chains) > 0, "the store receiving the mutation must be getLimitStoreForShard(id) of the id the leader guard tested"
+				for _, chain := range chains {
+					// keys and guards, both stated in the context of the outermost level
+					var lkeys []c13Ref
+					for _, k := range keys {
+						lkeys = append(lkeys, c13LiftRef(chain, 0, k))
+					}
 					matched := false
-					gs := c13LeaderGuards(site, depth)
+					var guardSrcs []c13Src
+					gs := c13ChainGuards(chain, depth)
 					if len(gs) == 0 {
 						why = "no IsLeader(GetShardID(…)) == true guard dominates the mutation; " + why
 					}
 					for _, g := range gs {
 						all := true
 						for _, s := range g.Srcs {
-							for _, k := range keys {
+							for _, k := range lkeys {
 								if !sameName(s.Name, k) {
 									all = false
 								}
@@ -1449,40 +1886,51 @@ func c13R3(c *eng.Ctx) {
 							matched = true
 							guardSrcs = g.Srcs
 						} else if len(gs) > 0 {
-							why = fmt.Sprintf("the leader guard is keyed by %s but the mutation by %s; %s", c13RefString(g.Srcs[0].Name), c13RefString(keys[0]), why)
+							why = fmt.Sprintf("the leader guard is keyed by %s but the mutation by %s; %s", c13RefString(g.Srcs[0].Name), c13RefString(lkeys[0]), why)
 						}
 					}
 					if !matched {
 						ok = false
 					}
-				}
-				c.Check("R3", fn, label+" on the IsLeader(shard(key)) edge", ci.Pos(), ok, why)
 
-				// the store is the one of the guarded shard (or handed in by the caller together with the condition)
-				sr, isAlias := c13Alias(storeVal)
-				sok, swhy := false, "the store receiving the mutation must be getLimitStoreForShard(id) of the id the leader guard tested"
-				if isAlias {
-					switch x := sr.(type) {
-					case *ssa.Parameter:
-						sok = x.Parent() == entry
-						swhy = "store handed in by the caller (it iterates the stores of led shards); the guard still tests the condition's own shard"
-					case *ssa.Call:
-						// selected by an id computed from the same name and count as the guard's id
-						srcs, ok2 := c13StoreSources(x, gls, depth)
-						sok = ok2 && len(srcs) > 0 && len(guardSrcs) > 0
-						for _, s := range srcs {
-							same := false
-							for _, g := range guardSrcs {
-								if g.Name == s.Name && g.Count == s.Count {
-									same = true
+					// the store is the one of the guarded shard (or handed in by the caller together with the condition)
+					sr, isAlias := c13Alias(c13LiftValue(chain, storeVal))
+					thisOK := false
+					if isAlias {
+						switch x := sr.(type) {
+						case *ssa.Parameter:
+							thisOK = x.Parent() == entry
+							swhy = "store handed in by the caller (it iterates the stores of led shards); the guard still tests the condition's own shard"
+						case *ssa.Call, *ssa.Extract:
+							// selected by an id computed from the same name and count as the guard's id
+							srcs, ok2 := c13StoreSources(x, gls, depth)
+							thisOK = ok2 && len(srcs) > 0 && len(guardSrcs) > 0
+							// the selecting call sits at some level of the chain: state its sources in the outermost context
+							lvl := 0
+							for k, lv := range chain {
+								if xi, isIns := x.(ssa.Instruction); isIns && lv.at.Parent() == xi.Parent() {
+									lvl = k
 								}
 							}
-							if !same {
-								sok = false
+							for _, s := range srcs {
+								s.Name, s.Count = c13LiftRef(chain, lvl, s.Name), c13LiftRef(chain, lvl, s.Count)
+								same := false
+								for _, g := range guardSrcs {
+									if g.Name == s.Name && g.Count == s.Count {
+										same = true
+									}
+								}
+								if !same {
+									thisOK = false
+								}
 							}
 						}
 					}
+					if !thisOK {
+						sok = false
+					}
 				}
+				c.Check("R3", fn, label+" on the IsLeader(shard(key)) edge", ci.Pos(), ok, why)
 				c.Check("R3", fn, label+" on the store of the guarded shard", ci.Pos(), sok, swhy)
 			}
 		}
@@ -1501,31 +1949,20 @@ func c13R3(c *eng.Ctx) {
 		if !serving || errIdx < 0 {
 			continue
 		}
-		sa := c.Slicer().WithArgs()
 		n := 0
-		for _, ci := range eng.CallsTo(entry, c13IsLeader) {
-			val := eng.ResultValue(ci)
-			if val == nil {
-				continue
-			}
-			for _, br := range eng.BranchesOn(val) {
+		for _, fn := range region {
+			for _, ci := range eng.CallsTo(fn, c13IsLeader) {
+				call, isCall := ci.(*ssa.Call)
+				if !isCall {
+					continue
+				}
 				n++
-				bad := eng.ReachFromBlock(br.OnFalse, eng.PathQuery{Target: func(x ssa.Instruction) bool {
-					ret, ok := x.(*ssa.Return)
-					if !ok {
-						return false
-					}
-					ev := c13Returned(ret, errIdx)
-					if ev == nil || eng.IsNilConst(ev) {
-						return true
-					}
-					return !sa.DerivesFrom(ev, func(v ssa.Value) bool {
-						cc, ok := v.(*ssa.Call)
-						return ok && eng.IsCall(cc, c13GetLeaders)
-					})
-				}})
-				c.Check("R3", entry, fmt.Sprintf("non-leader ⇒ error naming the leader#%d", n), ci.Pos(), bad == nil,
-					"on the IsLeader == false edge every return must carry a non-nil error built from GetLeaders() so that the gateway can re-address the request")
+				bad, why := c13NonLeaderAnswered(c, call, entry, eng.LiftDepth)
+				detail := "on the IsLeader == false edge every return must carry a non-nil error built from GetLeaders() so that the gateway can re-address the request"
+				if why != "" {
+					detail = why + "; " + detail
+				}
+				c.Check("R3", entry, fmt.Sprintf("non-leader ⇒ error naming the leader#%d", n), ci.Pos(), !bad, detail)
 			}
 		}
 		if n == 0 {
@@ -1748,11 +2185,11 @@ func c13ShardFilter(c *eng.Ctx, rule string) {
 			switch {
 			case isLocalSave(ci):
 				nLocal++
-				c.Check(rule, save, fmt.Sprintf("Save: local write#%d only for the store's own shard", nLocal), ci.Pos(), eng.GuardedBy(ci, own),
+				c.Check(rule, save, fmt.Sprintf("Save: local write#%d only for the store's own shard", nLocal), ci.Pos(), eng.HoldsAt(ci, own),
 					"the in-memory write must be control-dependent on GetShardID(condition.Spec.UpstreamCluster, shardCount) == shard of the condition being saved; otherwise a store holds (and later flushes/serves) state of a shard its server does not lead")
 			case c13Performs(ci, isAPIWrite, 2):
 				nAPI++
-				c.Check(rule, save, fmt.Sprintf("Save: API write#%d only for the store's own shard", nAPI), ci.Pos(), eng.GuardedBy(ci, own),
+				c.Check(rule, save, fmt.Sprintf("Save: API write#%d only for the store's own shard", nAPI), ci.Pos(), eng.HoldsAt(ci, own),
 					"the API write must be control-dependent on the own-shard test of the condition being saved")
 			}
 		}
@@ -1802,7 +2239,7 @@ func c13ShardFilter(c *eng.Ctx, rule string) {
 			n++
 			obj := eng.Args(ci)[1]
 			c.Check(rule, load, fmt.Sprintf("Load: local write#%d only for the store's own shard", n), ci.Pos(),
-				eng.GuardedBy(ci, func(r eng.Rel) bool { return c13OwnShardRel(r, true, recv, obj, depth) }),
+				eng.HoldsAt(ci, func(r eng.Rel) bool { return c13OwnShardRel(r, true, recv, obj, depth) }),
 				"a listed condition is taken into the store only if GetShardID(its Spec.UpstreamCluster, shardCount) == shard, tested on the very object that is saved; otherwise a new leader serves state of other shards")
 			c.Check(rule, load, fmt.Sprintf("Load: local write#%d stores a listed condition", n), ci.Pos(), sl.WithArgs().DerivesFrom(obj, isListed),
 				"what is loaded must come from the API server's list of conditions")
